@@ -31,7 +31,7 @@ Fixpoint dec_view (s : sexp) : view :=
   | _ => VText
   end.
 
-(** same filtering as the harness: kind 0..3, request 1..n *)
+(** same filtering as the harness: kind 0..4, request 1..n *)
 Definition dec_action (n : nat) (s : sexp) : list coarse :=
   let k := as_Z (nth_s 0 s) in
   let r := as_Z (nth_s 1 s) in
@@ -43,6 +43,7 @@ Definition dec_action (n : nat) (s : sexp) : list coarse :=
   | 1%Z => [CFire r g]
   | 2%Z => [CRun r]
   | 3%Z => [CFinish r]
+  | 4%Z => [CCreate r]
   | _ => []
   end.
 
@@ -85,7 +86,10 @@ Definition s_cleanups (q : reqst) : sexp :=
 (** what unwrapped code on the server thread sees between two actions *)
 Definition amb_view (sb : bool) (n : nat) (c : cfg) : sexp :=
   Lst (snat (read_owner_req c) :: Num (read_ctx c 0)
-       :: map (fun r => Num (if q_started (get_req r (c_w c)) then read_item sb r c CANARY_SLOT else (-3)%Z))
+       :: map (fun r => Num (match assoc_nat CANARY_SLOT (q_slots (get_req r (c_w c))) with
+                             | Some h => read_handle sb c h
+                             | None => (-3)%Z      (* r not created, or its first poll has not happened *)
+                             end))
               (seq 1 n)).
 
 Definition run_coarse (sb : bool) (views : list view) (acts : list coarse) : cfg * list sexp :=
